@@ -93,7 +93,7 @@ def enc_len(n: int, form: str = "min") -> bytes:
             return bytes([n])
         b = n.to_bytes((n.bit_length() + 7) // 8, "big")
         return bytes([0x80 | len(b)]) + b
-    k = {"81": 1, "82": 2, "83": 3, "84": 4, "85": 5}[form]
+    k = {"81": 1, "82": 2, "83": 3, "84": 4, "85": 5, "88": 8}[form]
     if n >= 1 << (8 * k):
         return enc_len(n, "min")
     return bytes([0x80 | k]) + n.to_bytes(k, "big")
